@@ -106,7 +106,7 @@ def run(ctx):
     ntj = [j for j in jsons if nontrivial(j)]
     ctx.cov.update({
         "evaluations": len(jsons),
-        "definition_files": len({j["pkg"] for j in jsons}),
+        "definition_files": len({(j["pkg"], hash(j["file"].get("source"))) for j in jsons}),
         "observations_compared": sum(len(j["obs"].get("probes") or []) + len(j["obs"].get("parses") or []) * 3 + 2
                                      for j in jsons),
         "distinct_nontrivial": vlib.distinct_count([[j["file"]["enums"][j["enum"]]["consts"], j["file"]["opts"]] for j in ntj]),
